@@ -194,12 +194,21 @@ def sequential(ctx):
             t0 = threading.Thread(target=lambda: None)
             t0.start()
             t0.join()
-        t2 = threading.Thread(target=lambda: attempt(box, 'second'))
+        def second():
+            # the refused thread tries again (a retry after the error, a pool worker that is reused): still refused
+            attempt(box, 'second')
+            attempt(box, 'second_again')
+            attempt(box, 'second_third')
+
+        t2 = threading.Thread(target=second)
         t2.start()
         t2.join()
         release.set()
         t1.join()
         key = ('after_close' if close_first else 'before_close') + ('' if between is None else ':' + between)
+        if box.get('first') == 'ok' and box.get('second') == 'refused' and (box.get('second_again') != 'refused' or box.get('second_third') != 'refused'):
+            ctx.clause_fail('later_thread_refused', {'order': key, 'result': dict(box)},
+                            detail='a thread that had been refused was allowed to create a store when it tried again')
         out[key] = dict(box)
         ctx.case('sequential:' + key, nontrivial=True, sample={'order': key, 'result': dict(box)})
         if box.get('first') != 'ok' or box.get('second') != 'refused':
